@@ -19,6 +19,8 @@ pub enum Signal {
     Stop(u64),
     /// finish with the acknowledgements withheld first
     FinishHeld,
+    /// finish() issued while nothing reaches the reader, cancelled, then the reader stops with c: the re-issued finish() reports stopped(c)
+    FinishCancelStop(u64),
     Finish,
 }
 
@@ -42,6 +44,7 @@ impl Sc {
             Signal::Reset(c) => json!(["reset", c]),
             Signal::Stop(c) => json!(["stop", c]),
             Signal::FinishHeld => json!(["finish_held", 0]),
+            Signal::FinishCancelStop(c) => json!(["finish_cancel_stop", c]),
             Signal::Finish => json!(["finish", 0]),
         };
         json!({"topo": self.topo, "raw_is_client": self.raw_is_client, "client_opens": self.client_opens, "bidi": self.bidi, "reverse": self.reverse, "signal": sg, "phase": self.phase, "k": self.k})
@@ -58,6 +61,7 @@ impl Sc {
                 "reset" => Signal::Reset(c),
                 "stop" => Signal::Stop(c),
                 "finish_held" => Signal::FinishHeld,
+                "finish_cancel_stop" => Signal::FinishCancelStop(c),
                 _ => Signal::Finish,
             },
             phase: v["phase"].as_u64().unwrap() as u8,
@@ -176,6 +180,28 @@ async fn wt_wt(sc: &Sc) -> Result<String, String> {
             }
             Ok(format!("stop({c}) seen"))
         }
+        Signal::FinishCancelStop(c) => {
+            // nothing the writer sends reaches the reader: no acknowledgement of the FIN can exist
+            world.net.set_policy(waddr, raddr, Policy::Hold);
+            for attempt in 0..2 {
+                if let Some(r) = within(300, w.finish()).await {
+                    return Err(format!("finish() attempt {attempt} completed with {r:?} although the FIN never left the writer's side"));
+                }
+            }
+            r.stop(vi(*c));
+            settle().await;
+            let res = within(2_000, w.finish()).await.ok_or("finish() hangs after the stop")?;
+            world.net.release();
+            match res {
+                Err(StreamWriteError::Stopped(x)) if x.into_inner() == *c => {}
+                other => return Err(format!("finish() cancelled, then stop({c}) before any acknowledgement: re-issued finish() = {other:?}")),
+            }
+            match within(1_000, w.stopped()).await {
+                Some(StreamWriteError::Stopped(x)) if x.into_inner() == *c => {}
+                other => return Err(format!("finish() cancelled, then stop({c}): stopped() = {other:?}")),
+            }
+            Ok(format!("finish cancelled; stop({c}) reported by the re-issued finish"))
+        }
         Signal::Finish | Signal::FinishHeld => {
             if sc.phase == 3 {
                 return Ok("finish-after-finish: skipped".into());
@@ -183,9 +209,11 @@ async fn wt_wt(sc: &Sc) -> Result<String, String> {
             if sc.signal == Signal::FinishHeld {
                 // withhold everything the reader's endpoint sends back (acknowledgements)
                 world.net.set_policy(raddr, waddr, Policy::Hold);
-                let pending = within(400, w.finish()).await;
-                if let Some(r) = pending {
-                    return Err(format!("finish() completed with {r:?} although no acknowledgement could have arrived"));
+                // the pending finish() is cancelled and re-issued: every attempt stays pending while no acknowledgement can arrive
+                for attempt in 0..3 {
+                    if let Some(r) = within(200, w.finish()).await {
+                        return Err(format!("finish() attempt {attempt} completed with {r:?} although no acknowledgement could have arrived"));
+                    }
                 }
                 world.net.release();
                 within(5_000, w.finish()).await.ok_or("finish() still pending 5 s after the acks were released")?.map_err(|e| format!("finish after release: {e:?}"))?;
@@ -408,6 +436,11 @@ pub fn scenarios(tier: Tier) -> Vec<Sc> {
                     }
                 }
             }
+            if phase < 3 {
+                for &c in if thorough { &codes[..] } else { &codes[phase as usize * 3..phase as usize * 3 + 3] } {
+                    out.push(Sc { topo: 0, raw_is_client: true, client_opens: co, bidi: bi, reverse: rev, signal: Signal::FinishCancelStop(c), phase, k: 700 });
+                }
+            }
             for sig in [Signal::Finish, Signal::FinishHeld] {
                 if phase == 3 {
                     continue;
@@ -453,7 +486,7 @@ pub fn run_check(args: &Args) -> i32 {
     let rep = Report::new(
         args,
         "exploration",
-        "scenario = topology (wt<->wt; raw peer as writer; raw peer as reader; both roles) x six data directions x signal (reset(c) / stop(c) / finish / finish with acknowledgements withheld then released) x phase (before any byte; after k bytes written and read; after k bytes written and unread; after finish) x code (10 values across every varint length incl. 2^62-1) x k; all distinct by construction and non-trivial",
+        "scenario = topology (wt<->wt; raw peer as writer; raw peer as reader; both roles) x six data directions x signal (reset(c) / stop(c) / finish / finish with acknowledgements withheld (every cancelled-and-reissued finish() stays pending) then released / finish cancelled while nothing reaches the reader, then stop(c), then finish again) x phase (before any byte; after k bytes written and read; after k bytes written and unread; after finish) x code (10 values across every varint length incl. 2^62-1) x k; all distinct by construction and non-trivial",
     );
     rep.assume("for a signal raised after finish completed, both 'complete delivery' and the signal are accepted (inherent race)");
     let scs = scenarios(args.tier);
